@@ -164,11 +164,36 @@ def single_assignments(fn_node):
     return {n: v for n, v in val.items() if count.get(n) == 1}
 
 
-def inline(fn_node, expr, depth=4):
+def scalarish(e):
+    """A defining expression that is a plain scalar / boolean computation
+    (comparisons, arithmetic, subscripts, attributes, len / int / abs ...):
+    safe to read in place of its temporary.  Array constructions,
+    comprehensions and other calls (the user's objective!) are not."""
+    for x in ast.walk(e):
+        if isinstance(x, (ast.ListComp, ast.GeneratorExp, ast.DictComp,
+                          ast.SetComp, ast.Lambda, ast.List, ast.Dict,
+                          ast.Set, ast.Await, ast.Yield, ast.YieldFrom,
+                          ast.JoinedStr)):
+            return False
+        if isinstance(x, ast.Call):
+            f = x.func
+            nm = f.id if isinstance(f, ast.Name) else (
+                f.attr if isinstance(f, ast.Attribute) else None)
+            if nm not in ('len', 'int', 'float', 'bool', 'abs', 'min', 'max',
+                          'isinstance', 'isinf', 'isnan', 'isfinite', 'sqrt',
+                          'log2', 'floor', 'get'):
+                return False
+    return True
+
+
+def inline(fn_node, expr, depth=4, only=None):
     """The expression with single-assignment temporaries replaced by their
-    defining expressions (``t = g(a); f(t)`` reads as ``f(g(a))``)."""
+    defining expressions (``t = g(a); f(t)`` reads as ``f(g(a))``); ``only``
+    restricts which defining expressions may be substituted."""
     import copy
     table = single_assignments(fn_node)
+    if only is not None:
+        table = {k: v for k, v in table.items() if only(v)}
 
     class R(ast.NodeTransformer):
         def __init__(self, d):
@@ -268,3 +293,111 @@ def origins(fn_node, params):
                 cur |= add
                 changed = True
     return org
+
+
+# ---------------------------------------------------------------------------
+# Predicate helpers.  A test that calls a small side-effect free helper of the
+# package (``if _reached(info, 'e', e):``) reads as the helper's own condition:
+# the body -- early ``if c: return K`` guards, single-assignment temporaries
+# and a final ``return <expr>`` -- is turned into ONE expression with the
+# arguments substituted for the parameters.
+def _body_expr(stmts, env):
+    """Expression computed by the statement list, or None when the body is
+    outside the fragment."""
+    import copy
+
+    def subst(e):
+        class R(ast.NodeTransformer):
+            def visit_Name(self, n):
+                if isinstance(n.ctx, ast.Load) and n.id in env:
+                    return copy.deepcopy(env[n.id])
+                return n
+        return R().visit(copy.deepcopy(e))
+    stmts = [s for s in stmts if not (isinstance(s, ast.Expr) and
+                                      isinstance(s.value, ast.Constant))]
+    if not stmts:
+        return None
+    st = stmts[0]
+    if isinstance(st, ast.Return):
+        if st.value is None:
+            return ast.Constant(value=None)
+        v = subst(st.value)
+        if isinstance(v, ast.Call) and isinstance(v.func, ast.Name) and \
+                v.func.id == 'bool' and len(v.args) == 1:
+            v = v.args[0]
+        return v
+    if isinstance(st, ast.Assign) and len(st.targets) == 1 and \
+            isinstance(st.targets[0], ast.Name):
+        env2 = dict(env)
+        env2[st.targets[0].id] = subst(st.value)
+        return _body_expr(stmts[1:], env2)
+    if isinstance(st, ast.If):
+        a = _body_expr(st.body, env)
+        b = _body_expr((st.orelse or []) + stmts[1:], env) \
+            if not st.orelse or True else None
+        if a is None or b is None:
+            return None
+        t = subst(st.test)
+        # boolean constants fold into and / or / not
+        if isinstance(a, ast.Constant) and a.value is False:
+            return ast.BoolOp(op=ast.And(), values=[
+                ast.UnaryOp(op=ast.Not(), operand=t), b])
+        if isinstance(a, ast.Constant) and a.value is True:
+            return ast.BoolOp(op=ast.Or(), values=[t, b])
+        if isinstance(b, ast.Constant) and b.value is False:
+            return ast.BoolOp(op=ast.And(), values=[t, a])
+        if isinstance(b, ast.Constant) and b.value is True:
+            return ast.BoolOp(op=ast.Or(), values=[
+                ast.UnaryOp(op=ast.Not(), operand=t), a])
+        return ast.IfExp(test=t, body=a, orelse=b)
+    return None
+
+
+def expand_predicates(prog, mod, expr, depth=2):
+    """``expr`` with calls of small package helpers replaced by the expression
+    they compute (see above); calls that do not fit are left alone."""
+    import copy
+    if depth <= 0 or expr is None:
+        return expr
+
+    class X(ast.NodeTransformer):
+        def visit_Call(self, n):
+            self.generic_visit(n)
+            fn = None
+            try:
+                fn = callee_of(prog, mod, n)
+            except Exception:
+                fn = None
+            if fn is None or isinstance(fn.node, ast.Lambda) or \
+                    fn.cls is not None:
+                return n
+            if any(isinstance(x, (ast.For, ast.While, ast.With, ast.Try,
+                                  ast.Yield, ast.AugAssign))
+                   for x in ast.walk(fn.node)):
+                return n
+            if any(isinstance(a, ast.Starred) for a in n.args) or \
+                    any(k.arg is None for k in n.keywords):
+                return n
+            env = {}
+            params = list(fn.params)
+            for p, a in zip(params, n.args):
+                env[p] = a
+            for k in n.keywords:
+                env[k.arg] = k.value
+            dfl = fn.defaults()
+            for p in fn.all_params:
+                if p not in env:
+                    if p in dfl:
+                        env[p] = dfl[p]
+                    else:
+                        return n
+            e = _body_expr(fn.node.body, env)
+            if e is None:
+                return n
+            e = expand_predicates(prog, fn.module, e, depth - 1)
+            ast.copy_location(e, n)
+            for sub in ast.walk(e):
+                if not hasattr(sub, 'lineno'):
+                    ast.copy_location(sub, n)
+            return e
+    return X().visit(copy.deepcopy(expr))
